@@ -58,6 +58,15 @@ GetNow == /\ depth < MaxDepth
           /\ op' = <<"get", 0>> /\ depth' = depth + 1
           /\ UNCHANGED <<msLow, isInit, lastSync, backupWrites, backupVal, T, el>>
 
+\* keepAlive(): the same catch-up without handing a reading to the caller -- what SystemClockLoop::loop() does on every
+\* call (also when there is no reference clock); a poll in the sense of the property
+KeepAlive == /\ depth < MaxDepth
+             /\ IF ~isInit THEN UNCHANGED <<epoch, prev>>
+                ELSE epoch' = epoch + Ticks /\ prev' = (prev + Ticks * S) % W
+             /\ gapOk' = (gapOk /\ sinceOp <= W - S) /\ sinceOp' = 0
+             /\ op' = <<"keep", 0>> /\ depth' = depth + 1
+             /\ UNCHANGED <<msLow, isInit, lastSync, backupWrites, backupVal, T, el, reading, lastRead>>
+
 \* setNow(v) -> syncNow(v), with a distinct backup clock
 SetNow(v) == /\ depth < MaxDepth
              /\ (ResyncStale \/ ~isInit \/ v # epoch)
@@ -70,7 +79,7 @@ SetNow(v) == /\ depth < MaxDepth
                              /\ backupWrites' = backupWrites + 1 /\ backupVal' = v
              /\ UNCHANGED <<msLow, reading>>
 
-Next == (\E d \in Gaps : Advance(d)) \/ GetNow \/ (\E v \in Values \cup {Invalid} : SetNow(v))
+Next == (\E d \in Gaps : Advance(d)) \/ GetNow \/ KeepAlive \/ (\E v \in Values \cup {Invalid} : SetNow(v))
 Spec == Init /\ [][Next]_vars
 
 ----------------------------------------------------------------------------
